@@ -266,6 +266,9 @@ package db
 //@   tags C19 C05
 //@ // ===== C01/C02/C04: the walk from an incoming commit back to the already merged frontier ============
 //@ // The merge target is a frontier of already merged commits with the greatest of their heights.
+//@ // nothing but add (and the constructor) writes the frontier or its height
+//@ discipline field-write mergeTarget.headHeight only-in (*mergeTarget).add tags C01 C02 C04
+//@ discipline field-write mergeTarget.heads only-in newMergeTarget tags C01 C02 C04
 //@ func (*mergeTarget).add
 //@   ensures maphas(mt.heads, blockCid) && mapget(mt.heads, blockCid) == block
 //@   ensures mt.headHeight >= old(mt.headHeight) && mt.headHeight >= res(GetPriority, 1, 0)
